@@ -12,6 +12,8 @@ struct Prop {
 
 fn table() -> Vec<Prop> {
     vec![
+        Prop { id: "C01", level: "exploration", run: props::c01::run, replay: props::c01::replay },
+        Prop { id: "C15", level: "exploration", run: props::c15::run, replay: props::c15::replay },
         Prop { id: "C17", level: "exploration", run: props::c17::run, replay: props::c17::replay },
         Prop { id: "C18", level: "exploration", run: props::c18::run, replay: props::c18::replay },
     ]
